@@ -16,6 +16,11 @@ import (
 
 func TestMain(m *testing.M) {
 	log.SetLevel(zapcore.FatalLevel)
+	if lv := os.Getenv("VERIF_LOGLEVEL"); lv != "" { // debugging aid: VERIF_LOGLEVEL=debug
+		if l, err := zapcore.ParseLevel(lv); err == nil {
+			log.SetLevel(l)
+		}
+	}
 	// The pinned petermattis/goid (2018) reads a wrong offset of runtime.g under the sandbox's Go 1.23 and returns the
 	// same id for every goroutine, so go-deadlock reports "recursive locking" (and exits the process) as soon as two
 	// goroutines hold one RWMutex for reading. That is a toolchain artefact, not behaviour of milvus-cdc: switch the
